@@ -322,7 +322,9 @@ def check_find_progress(ctx, rule):
                     args = base.args[1]
                     start_ok = len(args) >= 2 and (args[1] is a or (isinstance(a, Const) and isinstance(args[1], Const) and a.v == args[1].v))
                     lo, hi = pa.interp.bounds_of(base)
-                    if start_ok and lo is not None and lo >= 0:
+                    blo, _ = pa.interp.bounds_of(b)
+                    # found: find(...) >= 0, or equivalently the new position find(...) + 1 is known to be >= 1
+                    if start_ok and ((lo is not None and lo >= 0) or (blo is not None and blo >= 1)):
                         ok = True
             if not ok:
                 ctx.violated(rule, f.short, f"the scan position does not provably advance between two iterations: {show(a)[:40]} -> {show(b)[:60]}", fi=f, text="scan-no-advance")
